@@ -1147,6 +1147,11 @@ func newRowCache(name string, dbModel model.DatabaseModel, dataType reflect.Type
 	for _, columns := range schemaIndexes {
 		columnKeys := newColumnKeysFromColumns(columns...)
 		index := newIndexFromColumnKeys(columnKeys...)
+		// the same columns declared again, possibly in another order, are
+		// the same index
+		if _, ok := indexes[index]; ok {
+			continue
+		}
 		spec := indexSpec{index: index, columns: columnKeys, indexType: schemaIndexType}
 		r.indexSpecs = append(r.indexSpecs, spec)
 		indexes[index] = spec
